@@ -197,6 +197,8 @@ DESIGNATORS = {
     "logical-unit-group": (6, lambda n: Fmt("logical unit group designator", 4, {"logical_unit_group": N(2, 2)}), (4,)),
     "md5": (7, lambda n: Fmt("MD5 logical unit designator", 16, {"md5_logical_identifier": Blob(0, 16)}), (16,)),
     "scsi-name-string": (8, lambda n: Fmt("SCSI name string designator", n, {"scsi_name_string": Blob(0, n)}), (4, 12)),
+    # SPC-5 7.7.6.11: PCI EXPRESS ROUTING ID in bytes 0..1, six reserved bytes; DESIGNATOR LENGTH 8
+    "pci-express-routing-id": (9, lambda n: Fmt("PCI Express routing ID designator", 8, {"pci_express_routing_id": N(0, 2)}), (8,)),
 }
 NAA_FIXED = {"naa-2": 2, "naa-3": 3, "naa-5": 5, "naa-6": 6}
 
